@@ -305,11 +305,13 @@ class Ctx:
         with Lock("harness-" + name):
             if os.path.exists(out):
                 return out, ""
-            # drop stale builds of this harness
+            # drop stale builds of this harness (older than 3 h: concurrent runs at other tiers / trees keep theirs)
             for f in os.listdir(BUILD_DIR):
                 if f.startswith(name + "-") and not f.endswith(".lock"):
+                    fp = os.path.join(BUILD_DIR, f)
                     try:
-                        os.unlink(os.path.join(BUILD_DIR, f))
+                        if time.time() - os.path.getmtime(fp) > 3 * 3600:
+                            os.unlink(fp)
                     except OSError:
                         pass
             tmp = out + ".tmp%d" % os.getpid()
